@@ -27,6 +27,7 @@ type Program struct {
 	Contracts *Contracts
 	ModPath   string
 	roMemo    map[*FuncInfo]int
+	cg        map[string][]string
 }
 
 // Load loads all packages of the module rooted at dir with build tag verif.
